@@ -99,6 +99,9 @@ static uint64_t fnv(const std::string &s) {
 static uint64_t run_seed(uint64_t base, const std::string &family, const std::string &profile, uint64_t idx) {
   return mix64(mix64(base, fnv(family + "/" + profile)), idx);
 }
+#ifdef SIM_VEC_ONLY
+namespace sim { Engine *set_engine() { return nullptr; } }  // pre-C++17 builds carry the vector engine only (SmallSet needs C++17)
+#endif
 static Engine *engine_by_name(const std::string &n) {
   if (n == "vec") return vec_engine();
   if (n == "set") return set_engine();
